@@ -1,6 +1,6 @@
 (* One entry point for the extracted binary: component id -> runner. *)
 From Coq Require Import ZArith List.
-From Abm Require Import Base.Sx Spaces.Space Spaces.Ravel Spaces.Flatten.
+From Abm Require Import Base.Sx Spaces.Space Spaces.Ravel Spaces.Flatten Ctl.Managers Ctl.ScriptSim Ctl.MgrCheck.
 Open Scope Z_scope.
 
 Definition run_model (id : Z) (x : sx) : sx :=
@@ -9,5 +9,8 @@ Definition run_model (id : Z) (x : sx) : sx :=
   | 402 => run_chk_C04 x
   | 501 => run_flatten x
   | 502 => run_chk_C05 x
+  | 101 => run_managers x
+  | 102 => run_chk_mgr 1 x
+  | 702 => run_chk_mgr 7 x
   | _ => sx_err
   end.
